@@ -125,6 +125,36 @@ impl<A: DecoderArithmetic> Decoder<A> {
     }
 }
 
+#[cfg(feature = "verif-hooks")]
+impl<A: DecoderArithmetic> Decoder<A> {
+    /// Verification hook: overwrites every value cell of the decoder state
+    /// (LLR buffers and message values, never a source tag) with
+    /// caller-supplied values.
+    pub fn verif_havoc(
+        &mut self,
+        mut llr: impl FnMut() -> A::Llr,
+        mut check_message: impl FnMut() -> A::CheckMessage,
+        mut var_message: impl FnMut() -> A::VarMessage,
+    ) {
+        for x in self.input_llrs.iter_mut() {
+            *x = llr();
+        }
+        for x in self.output_llrs.iter_mut() {
+            *x = llr();
+        }
+        for msgs in self.check_messages.per_destination.iter_mut() {
+            for m in msgs.iter_mut() {
+                m.value = check_message();
+            }
+        }
+        for msgs in self.variable_messages.per_destination.iter_mut() {
+            for m in msgs.iter_mut() {
+                m.value = var_message();
+            }
+        }
+    }
+}
+
 impl<A: DecoderArithmetic> LdpcDecoder for Decoder<A> {
     fn decode(
         &mut self,
